@@ -831,7 +831,9 @@ func (s *sched) call(u ociregistry.Interface) {
 	case 0:
 		s.res.rd, s.res.err = u.GetBlob(s.parent, "some/repo", d)
 	case 1:
-		s.res.rd, s.res.err = u.GetBlobRange(s.parent, "some/repo", d, 2, 9)
+		// the range is the members' business: ordinary, whole, empty (at the start, inside), inverted
+		rg := [][2]int64{{2, 9}, {0, -1}, {4, 4}, {0, 0}, {7, 3}, {2, 9}}[s.rep%6]
+		s.res.rd, s.res.err = u.GetBlobRange(s.parent, "some/repo", d, rg[0], rg[1])
 	case 2:
 		s.res.rd, s.res.err = u.GetManifest(s.parent, "some/repo", d)
 	case 3:
